@@ -73,11 +73,14 @@ type truth struct {
 	rejExp      bool
 	rejUnexp    bool
 	ekuKnown    bool
+	ekuWhy      string // why the list is not 'only known names' (signature detail)
 	rejExtOK    bool  // every reject_extensions entry is a dotted decimal OID
 	backend     int32 // 0 Trillian gRPC (default), 1 CTFE, other: not a defined enum value
 	connUsable  tri
+	connWhy     string // class of an unusable string (signature detail)
 	rootsN      int
 	rootsOK     bool // every listed file exists and holds a certificate
+	rootCerts   []int // the distinct root certificates (indices into mat.rootDER) the listed files hold
 }
 
 // ---- fixed material ---------------------------------------------------------
@@ -85,6 +88,8 @@ type truth struct {
 type material struct {
 	dir        string
 	rootsFile  string
+	rootsFile2 string
+	rootDER    [][]byte
 	missing    string
 	keys       map[string]*pki.Key
 	privAny    map[string]*anypb.Any
@@ -128,9 +133,13 @@ func prepare() {
 	}
 	mat.rootsFile = filepath.Join(mat.dir, "roots.pem")
 	mat.missing = filepath.Join(mat.dir, "no-such-roots.pem")
-	root := pki.NewRoot("c15 root", pki.LoadKey("p256-2"))
-	if err := os.WriteFile(mat.rootsFile, pem.EncodeToMemory(&pem.Block{Type: "CERTIFICATE", Bytes: root.DER}), 0o644); err != nil {
-		panic(err)
+	mat.rootsFile2 = filepath.Join(mat.dir, "roots2.pem")
+	for i, f := range []string{mat.rootsFile, mat.rootsFile2} {
+		root := pki.NewRoot(fmt.Sprint("c15 root ", i), pki.LoadKey(fmt.Sprint("p256-", 2+i)))
+		mat.rootDER = append(mat.rootDER, root.DER)
+		if err := os.WriteFile(f, pem.EncodeToMemory(&pem.Block{Type: "CERTIFICATE", Bytes: root.DER}), 0o644); err != nil {
+			panic(err)
+		}
 	}
 	mat.keys = map[string]*pki.Key{}
 	mat.privAny = map[string]*anypb.Any{}
@@ -249,23 +258,24 @@ func strs(xs ...string) []string { return xs }
 var connStrings = []struct {
 	s      string
 	usable tri
+	why    string
 	th     bool
 }{
-	{"", no, false},
-	{"mysql", no, false},                            // no scheme separator
-	{"mysql://", dontcare, false},                   // empty DSN: grammar asks for /dbname, the driver defaults everything
-	{"mysql://u@tcp(h)/db", yes, false},             //
-	{"mysql://u:pw@tcp(h:3306)/db?timeout=1s", yes, true},
-	{"mysql://u@tcp(h", no, false},                  // DSN without the /dbname part
-	{"mysqlx://u@tcp(h)/db", no, false},             // scheme is not mysql: no driver takes it
-	{"postgres", no, false},                         // no scheme separator
-	{"postgres://h/db", yes, false},                 //
-	{"postgresql://h/db", yes, false},               //
-	{"postgresql://u:pw@h:5432/db?sslmode=disable", yes, true},
-	{"postgresql://h:port/db", no, false},           // port is not a number
-	{"postgresqlx://h/db", no, true},                // scheme is not postgres(ql)
-	{"sqlite://x", no, false},                       // unsupported driver
-	{"://", no, true},
+	{"", no, "empty", false},
+	{"mysql", no, "no-scheme-separator", false},
+	{"mysql://", dontcare, "", false}, // empty DSN: grammar asks for /dbname, the driver defaults everything
+	{"mysql://u@tcp(h)/db", yes, "", false},
+	{"mysql://u:pw@tcp(h:3306)/db?timeout=1s", yes, "", true},
+	{"mysql://u@tcp(h", no, "malformed-dsn", false},           // DSN without the /dbname part
+	{"mysqlx://u@tcp(h)/db", no, "scheme-is-no-driver", false}, // scheme merely starts with "mysql": no driver takes it
+	{"postgres", no, "no-scheme-separator", false},
+	{"postgres://h/db", yes, "", false},
+	{"postgresql://h/db", yes, "", false},
+	{"postgresql://u:pw@h:5432/db?sslmode=disable", yes, "", true},
+	{"postgresql://h:port/db", no, "malformed-dsn", false}, // port is not a number
+	{"postgresqlx://h/db", no, "scheme-is-no-driver", true},
+	{"sqlite://x", no, "unsupported-driver", false},
+	{"://", no, "unsupported-driver", true},
 }
 
 var fields []field
@@ -375,22 +385,22 @@ func buildFields() {
 	add(boolField("reject_unexpired", func(c *configpb.LogConfig, t *truth, b bool) { c.RejectUnexpired = b; t.rejUnexp = b }))
 	add(boolField("accept_only_ca", func(c *configpb.LogConfig, t *truth, b bool) { c.AcceptOnlyCa = b }))
 
-	eku := func(known bool, th bool, names ...string) value {
+	eku := func(why string, th bool, names ...string) value {
 		return value{label: fmt.Sprint(names), th: th, apply: func(c *configpb.LogConfig, t *truth) {
 			c.ExtKeyUsages = append([]string(nil), names...)
-			t.ekuKnown = known
+			t.ekuKnown, t.ekuWhy = why == "", why
 		}}
 	}
 	add(field{"ext_key_usages", []value{
-		eku(true, false),
-		eku(true, false, "ServerAuth"),
-		eku(true, false, "Any"),
-		eku(false, false, "Bogus"),
-		eku(false, false, "ServerAuth", "Any", "Bogus"),
-		eku(false, true, "Bogus", "Any"),
-		eku(true, true, "ClientAuth", "ServerAuth", "ServerAuth"),
-		eku(false, false, ""),
-		eku(false, true, "serverauth"),
+		eku("", false),
+		eku("", false, "ServerAuth"),
+		eku("", false, "Any"),
+		eku("unknown-name", false, "Bogus"),
+		eku("unknown-name-after-Any", false, "ServerAuth", "Any", "Bogus"),
+		eku("unknown-name", true, "Bogus", "Any"),
+		eku("", true, "ClientAuth", "ServerAuth", "ServerAuth"),
+		eku("unknown-name", false, ""),
+		eku("unknown-name", true, "serverauth"),
 	}})
 
 	rext := func(ok bool, th bool, oids ...string) value {
@@ -416,23 +426,24 @@ func buildFields() {
 		x := x
 		cs = append(cs, value{label: fmt.Sprintf("%q", x.s), th: x.th, apply: func(c *configpb.LogConfig, t *truth) {
 			c.CtfeStorageConnectionString = x.s
-			t.connUsable = x.usable
+			t.connUsable, t.connWhy = x.usable, x.why
 		}})
 	}
 	add(field{"connection_string", cs})
 
-	roots := func(label string, th bool, ok bool, files ...string) value {
+	roots := func(label string, th bool, ok bool, certs []int, files ...string) value {
 		return value{label: label, th: th, apply: func(c *configpb.LogConfig, t *truth) {
 			c.RootsPemFile = append([]string(nil), files...)
-			t.rootsN, t.rootsOK = len(files), ok
+			t.rootsN, t.rootsOK, t.rootCerts = len(files), ok, certs
 		}}
 	}
 	add(field{"roots_pem_file", []value{
-		roots("none", false, true),
-		roots("valid", false, true, mat.rootsFile),
-		roots("missing", false, false, mat.missing),
-		roots("valid+missing", true, false, mat.rootsFile, mat.missing),
-		roots("valid+valid", true, true, mat.rootsFile, mat.rootsFile),
+		roots("none", false, true, nil),
+		roots("valid", false, true, []int{0}, mat.rootsFile),
+		roots("missing", false, false, nil, mat.missing),
+		roots("valid+missing", true, false, nil, mat.rootsFile, mat.missing),
+		roots("valid+same", true, true, []int{0}, mat.rootsFile, mat.rootsFile),
+		roots("valid+other", false, true, []int{0, 1}, mat.rootsFile, mat.rootsFile2),
 	}})
 }
 
